@@ -171,7 +171,7 @@ fn check_grammar(run: &Run, p: &RefPos, b: &Board, legal: &[RMove]) {
     run.tolerant("T4: text flawed only in an unvalidated marker (x, e.p., +/#) or castling spelled as a king move", either);
 }
 
-const EDIT_ALPHABET: &[&str] = &["a", "e", "h", "1", "4", "8", "x", "N", "K", "Q", "O", "-", "+", "#", "=", " ", ".", "p", "é", "€", "😀"];
+const EDIT_ALPHABET: &[&str] = &["a", "e", "h", "1", "4", "8", "x", "N", "K", "Q", "O", "-", "+", "#", "=", " ", ".", "p", "é", "€", "😀", "\n", "\u{14e}", "\u{178}", "\u{14f}", "\u{131}", "\u{165}", "\u{1f151}"];
 
 /// (c) 1-edit ball of every spelling, and all short strings: no panic, Ok(m) => m legal.
 fn check_safety(run: &Run, p: &RefPos, b: &Board, legal: &[RMove], texts: &[String], short_len: usize) {
@@ -236,7 +236,7 @@ fn check_safety(run: &Run, p: &RefPos, b: &Board, legal: &[RMove], texts: &[Stri
     run.add("short_strings", n);
 }
 
-pub const RULE: &str = "positions = SAN-specific roots (queens / rooks / knights / bishops needing file, rank and full-square disambiguation, a pinned rival, castling with check and with mate, en-passant captures, capture- and under-promotions), the curated roots, and their children (quick: children of the SAN roots; thorough: also of all roots), plus the en-passant family without extra man and the ~4350 feature-covering roots (thorough: with children). Per position: (a) every admissible spelling of every legal move (minimal and every fuller correct disambiguation, x on captures, promotion letter, no mark or the correct +/#, optional ' e.p.') must parse to exactly that move; (b) on a subset, EVERY grammar-complete text piece x source(81) x x x dest(all destinations + 2) x promo{-,Q,N} x {-,+} x {-, e.p.} judged by a reference interpreter (fits exactly one and markers right: must parse to it; fits none or several: must be rejected; flawed only in an unvalidated marker: either); (c) the complete 1-edit ball (insert / delete / substitute over a 21-symbol alphabet incl. 2/3/4-byte characters) of every spelling and all strings of length <= 3 (quick: 2): no panic and Ok(m) implies m legal. distinct_nontrivial = spellings that needed disambiguation, castling, en passant, promotion or a check/mate mark";
+pub const RULE: &str = "positions = SAN-specific roots (queens / rooks / knights / bishops needing file, rank and full-square disambiguation, a pinned rival, castling with check and with mate, en-passant captures, capture- and under-promotions), the curated roots, and their children (quick: children of the SAN roots; thorough: also of all roots), plus the en-passant family without extra man and the ~4350 feature-covering roots (thorough: with children). Per position: (a) every admissible spelling of every legal move (minimal and every fuller correct disambiguation, x on captures, promotion letter, no mark or the correct +/#, optional ' e.p.') must parse to exactly that move; (b) on a subset, EVERY grammar-complete text piece x source(81) x x x dest(all destinations + 2) x promo{-,Q,N} x {-,+} x {-, e.p.} judged by a reference interpreter (fits exactly one and markers right: must parse to it; fits none or several: must be rejected; flawed only in an unvalidated marker: either); (c) the complete 1-edit ball (insert / delete / substitute over a 28-symbol alphabet incl. 2/3/4-byte characters, among them characters whose low byte equals N, x, O, 1, e, Q) of every spelling and all strings of length <= 3 (quick: 2): no panic and Ok(m) implies m legal. distinct_nontrivial = spellings that needed disambiguation, castling, en passant, promotion or a check/mate mark";
 
 fn check_position(run: &Run, p: &RefPos, grammar: bool, short_len: usize) {
     let b = match guard::lib(|| from_scratch(p)) {
